@@ -26,6 +26,7 @@ HexSeq(xs) == [i \in 1..Len(xs) |-> HexToBytes(xs[i])]
 SetOf(seq) == {seq[i] : i \in 1..Len(seq)}
 Has(r, f) == f \in DOMAIN r
 
+PretendOf(o) == IF Has(o, "pretend") THEN {<<H(o.pretend[i][1]), H(o.pretend[i][2])>> : i \in 1..Len(o.pretend)} ELSE {}
 MkCtx(o) ==
     LET hasTx == Has(o, "tx") /\ o.tx # ""
     IN [script |-> H(o.script), sigver |-> o.sigver,
@@ -37,7 +38,7 @@ MkCtx(o) ==
         spent |-> IF hasTx /\ Has(o, "spent") THEN [i \in 1..Len(o.spent) |-> [amount |-> H(o.spent[i][1]), script |-> H(o.spent[i][2])]] ELSE <<>>,
         annex |-> IF Has(o, "annex") /\ o.annex # "" THEN <<TRUE, H(o.annex)>> ELSE <<FALSE, <<>>>>,
         leafhash |-> IF Has(o, "leafhash") THEN H(o.leafhash) ELSE <<>>,
-        pretend |-> IF Has(o, "pretend") THEN {<<H(o.pretend[i][1]), H(o.pretend[i][2])>> : i \in 1..Len(o.pretend)} ELSE {}]
+        pretend |-> PretendOf(o)]
 
 \* --tx/--txin sessions set up by the tool itself (auto): the specification's own set-up of the same pair
 IsAuto(o) == Has(o, "auto")
@@ -50,7 +51,10 @@ AutoSpent(o, su) == IF Has(o, "spent_all") THEN [i \in 1..Len(o.spent_all) |-> [
 SigverNum == [BASE |-> 0, WITNESS_V0 |-> 1, TAPROOT |-> 2, TAPSCRIPT |-> 3]
 
 MkSession(o) ==
-    IF IsAuto(o) THEN (LET su == AutoSetup(o) IN IF su.refused THEN [refused |-> TRUE, why |-> su.why] ELSE SessionOf(AutoTx(o), AutoFunding(o), su, AutoFlags(o), AutoSpent(o, su)))
+    IF IsAuto(o) THEN (LET su == AutoSetup(o) IN IF su.refused THEN [refused |-> TRUE, why |-> su.why]
+                                                 ELSE LET base == SessionOf(AutoTx(o), AutoFunding(o), su, AutoFlags(o), AutoSpent(o, su))
+                                                      \* --pretend-valid on a spend: the listed pairs (the verdict is then not comparable with validation)
+                                                      IN [base EXCEPT !.ctx.pretend = PretendOf(o)])
     ELSE InitSession(MkCtx(o), HexSeq(o.stack), IF Has(o, "succ") THEN H(o.succ) ELSE <<>>, NoTce,
                 IF Has(o, "weight") THEN o.weight ELSE 0)
 
@@ -268,9 +272,17 @@ DoRun(ev) ==
                           ELSE /\ divs' = Append(divs, Div("exec accepted an invalid token", <<>>, ev)) /\ mode' = "skip"
                                /\ UNCHANGED <<cov, sess, cur, stats>>)
            ELSE LET exp == Exec(sess, a[2])
-                IN IF exp.vm.status = "failed" /\ ~ev.ok /\ (exp.vm.err = "ANY" \/ exp.vm.err = ev.err)
-                   THEN /\ mode' = "skip" /\ cov' = cov \cup {<<"exec", exp.vm.err>>} /\ stats' = Bump("failed")
+                    \* an operation that throws (number too long / not minimal) has not touched the stacks: what the user sees after the failed
+                    \* exec is the effect of the operations before it (an operation that fails with a script error may leave its own partial effect)
+                    pre == ExecPrefix(sess, a[2])
+                    threw == Has(ev, "exc") /\ ev.exc # ""
+                    bad == IF threw THEN Mismatch(pre, ev) \cap {"stack", "alt", "cond"} ELSE {}
+                IN IF exp.vm.status = "failed" /\ ~ev.ok /\ (exp.vm.err = "ANY" \/ exp.vm.err = ev.err) /\ bad = {}
+                   THEN /\ mode' = "skip" /\ cov' = cov \cup {<<"exec", exp.vm.err>>} \cup (IF threw THEN {<<"exec", "threw: prefix kept">>} ELSE {}) /\ stats' = Bump("failed")
                         /\ UNCHANGED <<divs, sess, cur>>
+                   ELSE IF exp.vm.status = "failed" /\ ~ev.ok /\ (exp.vm.err = "ANY" \/ exp.vm.err = ev.err)
+                   THEN /\ divs' = Append(divs, Div("state after a failed exec: the operations before the one that threw must stay applied", [op |-> "exec", fields |-> bad, exp |-> Show(pre)], ev))
+                        /\ mode' = "skip" /\ UNCHANGED <<cov, sess, cur, stats>>
                    ELSE Judge(ev, exp, "exec", FALSE)
     ELSE IF ev.e = "Rewind" THEN
         IF ev.ok THEN
